@@ -1,5 +1,6 @@
 /-
-Prefetch mode against on-demand mode (C08 `mode_equiv`), for `threshold_bp = 0`.
+Prefetch mode against on-demand mode (C08 `mode_equiv`), for `threshold_bp = 0` (every threshold:
+`Lemmas/GatherModesT.lean`).
 -/
 import SmVerif.Lemmas.GatherIdx
 import SmVerif.Lemmas.GatherPartition
